@@ -194,7 +194,7 @@ def r1_et(ctx: Ctx, rep: Report):
         for m in sel:
             if not ws:
                 if len(sel) == 1 or not any(_writes(p)):
-                    seen.setdefault(m, (False, "no write of 'work_mode' in the branch")) if _writes(p) or len(sel) == 1 and m in _handled_names(fn) else None
+                    seen.setdefault(m, (False, "no write of 'work_mode' in the branch")) if _writes(p) or len(sel) == 1 and m in _handled_names(fn, prog) else None
                 continue
             try:
                 v = _const_of(ws[-1][3])
@@ -205,7 +205,7 @@ def r1_et(ctx: Ctx, rep: Report):
             ok = v == want
             if m not in seen or (seen[m][0] and not ok):
                 seen[m] = (ok, "writes work_mode = %s, OperationMode.%s is %s" % (v, m, want))
-    for m in _handled_names(fn):
+    for m in _handled_names(fn, prog):
         ok, why = seen.get(m, (False, "no path writes 'work_mode' for it"))
         rep.check(ok, "C19.R1", "et-mode:%s" % m, fn.loc(), "ET.set_operation_mode(%s) %s" % (m, why),
                   bad="ET.set_operation_mode(OperationMode.%s): %s - get_operation_mode() would report another mode" % (m, why))
@@ -214,13 +214,28 @@ def r1_et(ctx: Ctx, rep: Report):
     _getter(ctx, rep, g, "ET")
 
 
-def _handled_names(fn: FuncInfo) -> List[str]:
+_HANDLED: Dict[int, List[str]] = {}
+
+
+def _handled_names(fn: FuncInfo, prog=None) -> List[str]:
+    """OperationMode members the setter compares its argument with - read off the tests of its paths, so that a
+    table-driven dispatch (for mode, ... in _WORK_MODE_STEPS: if operation_mode == mode) counts like an if/elif chain."""
+    if id(fn.node) in _HANDLED:
+        return _HANDLED[id(fn.node)]
     out = []
-    for n in ast.walk(fn.node):
+    nodes = []
+    if prog is not None:
+        for p in enumerate_paths(prog, fn, no_raise):
+            nodes.extend(ev.node for ev in p.events if ev.kind == "test")
+    else:
+        nodes = list(ast.walk(fn.node))
+    for n in nodes:
         if isinstance(n, ast.Compare) and norm(n.left) == fn.params[1]:
             for nm in re.findall(r"OperationMode\.(\w+)", norm(n.comparators[0])):
                 if nm not in out:
                     out.append(nm)
+    if prog is not None:
+        _HANDLED[id(fn.node)] = out
     return out
 
 
